@@ -2,7 +2,9 @@
 //! usage: vcore <check> --tier quick|thorough --seed N --out result.json [--only I] ...
 
 mod c01;
+mod c02;
 mod common;
+mod corpus;
 
 use vkit::alloc::Counting;
 use vkit::out::Report;
@@ -26,6 +28,8 @@ fn main() {
     let report: Report = match cmd.as_str() {
         "c01" => c01::run_c01(&args, &tier, seed),
         "c03" => c01::run_c03(&args, &tier, seed),
+        "c02w" => c02::run_worker(&args, &tier, seed),
+        "c02bomb" => c02::run_bomb(&args, &tier, seed),
         _ => {
             eprintln!("unknown check {cmd}");
             std::process::exit(3);
